@@ -356,3 +356,23 @@ func vInt(v any) int {
 }
 
 func vStack() string { return string(debug.Stack()) }
+
+// c10Diff lists the elements of a that are not in b (multiset difference).
+func c10Diff(a, b []string) []string {
+	in := map[string]int{}
+	for _, s := range b {
+		in[s]++
+	}
+	var out []string
+	for _, s := range a {
+		if in[s] > 0 {
+			in[s]--
+			continue
+		}
+		out = append(out, vTrunc(s, 220))
+	}
+	if len(out) == 0 {
+		return []string{"(nothing extra; order differs)"}
+	}
+	return out
+}
